@@ -86,8 +86,9 @@ Definition proxy_holds (mac : str -> str -> str) (o : pobs) : bool :=
   strs_eqb (map fst (po_params o)) [k_redirect_uri; k_sig; k_ts] &&
   (* scheme://Host/ for an ordinary request; the scheme-relative //Host/ is tolerated (same host) for
      an absolute-form request line only *)
-  (str_eqb uri ((if po_secure o then s_https else s_http) ++ colon_slash_slash ++ po_host o ++ [47]) ||
-   (negb (po_origin_form o) && str_eqb uri ([47; 47] ++ po_host o ++ [47]))) &&
+  (let h := escape_host (po_host o) in      (* = Host itself unless it contains a byte URL.String escapes *)
+   str_eqb uri ((if po_secure o then s_https else s_http) ++ colon_slash_slash ++ h ++ [47]) ||
+   (negb (po_origin_form o) && str_eqb uri ([47; 47] ++ h ++ [47]))) &&
   (* the timestamp is the current time, in canonical decimal *)
   str_eqb ts (dec (po_ts o)) && (po_clock o <=? po_ts o)%Z && (po_ts o <=? po_clock o + 60)%Z &&
   (* the signature is base64url(HMAC(secret, uri ++ ts)) *)
